@@ -455,6 +455,7 @@ def rule_chromatwin(ctx):
     if len(me) != 2:
         has_mod = any(dict(c.kw).get("distance") is not None for c in me)
         yield ob(R, h, "multipitch.compute_num_true_positives:twin", False, "chroma=True no longer selects a separate match with distance=_outer_distance_mod_n (%s): pitch classes across the octave wrap (11.9 vs 0.1) stop matching" % ("a single call, always with the modular distance" if has_mod else "a single call without the modular distance"))
+        yield from _melody_twin(ctx, R)
         return
     under_chroma = [c for c in me if any(cc.op == "param" and cc.a[0] == "chroma" and p for cc, p in symeval.pc_conds(c.pc))]
     other = [c for c in me if c not in under_chroma]
